@@ -760,10 +760,19 @@ func phaseHistory(t *testing.T, e *env, rng *rand.Rand, out *hx.Out) {
 				} else if len(grants) > 0 && rng.Intn(6) != 0 {
 					g := grants[rng.Intn(len(grants))]
 					var cands []route
+					// mostly: the grantee itself is the direct caller; sometimes: the grantee is only the tx origin and a
+					// contract it called (which holds no grant) tries to use the grant on its behalf
+					onBehalf := rng.Intn(4) == 0
 					for _, r := range routes {
-						if r.caller == g.s {
+						if (!onBehalf && r.caller == g.s) || (onBehalf && r.origin == g.s && r.caller != g.s) {
 							cands = append(cands, r)
 						}
+					}
+					if len(cands) == 0 {
+						cands = routes
+					}
+					if onBehalf {
+						out.Count("hist:tfs:contract-on-behalf-of-grantee")
 					}
 					rt = cands[rng.Intn(len(cands))]
 					caller = byID[rt.caller]
